@@ -79,6 +79,7 @@ fn single(seed: u64, idx: u64) -> Tally {
     t.count("callbacks", out.cbs.len() as u64);
     t.count("qpoints", out.qpoints.len() as u64);
     t.interleavings.insert(out.sched_hash);
+    t.count("c20.deferred_in_span_logs_fired", out.qpoints.iter().filter(|q| q.decision.contains("deferred")).count() as u64);
     oracles_trace::c20(&an, &mut t, idx);
     // the same real run also feeds the runner oracles: this is the only workload
     // in which the runner is compiled with its `tracing` code paths
